@@ -60,7 +60,7 @@ M = [
  ('timer-no-wakeup-on-add', 'electronic_control_unit.py', "        self._timer_events.append( d )\n        self._job_thread_wakeup()", "        self._timer_events.append( d )", ['C12']),
  ('listener-flag-guard', 'electronic_control_unit.py', "if self.stopped or msg.is_error_frame or msg.is_remote_frame or (msg.is_extended_id == False):", "if self.stopped or msg.is_error_frame or (msg.is_extended_id == False):", ['C05']),
  ('listener-exception-containment', 'electronic_control_unit.py', "        try:\n            self.ecu.notify(msg.arbitration_id, msg.data, msg.timestamp)\n        except Exception as e:\n            # Exceptions in any callbaks should not affect CAN processing\n            logger.error(str(e))", "        self.ecu.notify(msg.arbitration_id, msg.data, msg.timestamp)", ['C07']),
- ('dm14-key-check-bypass', 'Dm14Server.py', "        return True if self._key_from_seed(seed) == key else False", "        return True if (self._key_from_seed(seed) == key or key == 0xFFFF) else False", []),
+ ('dm14-key-check-bypass', 'Dm14Server.py', "        return True if self._key_from_seed(seed) == key else False", "        return True if (self._key_from_seed(seed) == key or key == 0xFFFF) else False", ['C18']),
  ('dm14-key-check-always', 'Dm14Server.py', "        return True if self._key_from_seed(seed) == key else False", "        return True", ['C18']),
  ('dm14-busy-check-bypass', 'Dm14Server.py', "            (self.sa is not None and sa != self.sa)\n            or (", "            (False)\n            or (", ['C19']),
  ('dm14-pointer-check-bypass', 'Dm14Server.py', "                self.address is not None and self.address != data[2 : (self.length - 2)]", "                False", ['C19']),
